@@ -36,25 +36,28 @@ Proof.
 Qed.
 
 (** The monitor's counters of a thread, as a function of the model state. *)
-Definition counters (n r : nat) (th : thread) : mcnt :=
-  {| m_gen := r * n + Nat.min (pc th) n;
+Definition counters (g0 n r : nat) (th : thread) : mcnt :=
+  {| m_gen := g0 + Nat.min (pc th) n;
      m_clear := r + b2n (n + 1 <? pc th);
      m_start := r + b2n (n + 3 <? pc th);
      m_end := r + b2n (2 * n + 4 <? pc th);
      m_pan := panicked th |}.
 
-Definition full (n r : nat) : mcnt :=
-  {| m_gen := r * n; m_clear := r; m_start := r; m_end := r; m_pan := false |}.
+Definition full (g0 r : nat) : mcnt :=
+  {| m_gen := g0; m_clear := r; m_start := r; m_end := r; m_pan := false |}.
 
-Definition Sim (c : config) (n : nat) (st : state) (ms : list mcnt) : Prop :=
+Definition cnt (c : config) (r : nat) (th : thread) : mcnt :=
+  counters (cum (ssize c) r) (ssize c r) r th.
+
+Definition Sim (c : config) (st : state) (ms : list mcnt) : Prop :=
   length ms = nthreads c /\
   match gp st with
-  | GRun => forall j th m, nth_error (ths st) j = Some th -> nth_error ms j = Some m -> m = counters n (round st) th
-  | GIdle => forall m, In m ms -> m = full n (round st)
+  | GRun => forall j th m, nth_error (ths st) j = Some th -> nth_error ms j = Some m -> m = cnt c (round st) th
+  | GIdle => forall m, In m ms -> m = full (cum (ssize c) (round st)) (round st)
   | GEnd _ => True
   end.
 
-Lemma counters_fresh : forall n r th, counters n r (fresh th) = full n r.
+Lemma counters_fresh : forall g0 n r th, counters g0 n r (fresh th) = full g0 r.
 Proof.
   intros. unfold counters, full, fresh, panicked; cbn [pc md].
   rewrite Nat.min_0_l.
@@ -64,10 +67,10 @@ Proof.
   cbn [b2n]. f_equal; lia.
 Qed.
 
-Lemma counters_returned : forall n sh r th,
-  plen n sh <= pc th -> panicked th = false -> counters n r th = full n (S r).
+Lemma counters_returned : forall g0 n sh r th,
+  plen n sh <= pc th -> panicked th = false -> counters g0 n r th = full (g0 + n) (S r).
 Proof.
-  intros n sh r th PL P. unfold counters, full. rewrite P. unfold plen in PL.
+  intros g0 n sh r th PL P. unfold counters, full. rewrite P. unfold plen in PL.
   rewrite Nat.min_r by lia.
   replace (n + 1 <? pc th) with true by (symmetry; apply Nat.ltb_lt; lia).
   replace (n + 3 <? pc th) with true by (symmetry; apply Nat.ltb_lt; lia).
@@ -76,16 +79,16 @@ Proof.
 Qed.
 
 (** Two threads with the same position and panic status have the same counters. *)
-Lemma counters_same : forall n r th th',
-  pc th' = pc th -> panicked th' = panicked th -> counters n r th' = counters n r th.
-Proof. intros n r th th' P Q. unfold counters. rewrite P, Q. reflexivity. Qed.
+Lemma counters_same : forall g0 n r th th',
+  pc th' = pc th -> panicked th' = panicked th -> counters g0 n r th' = counters g0 n r th.
+Proof. intros g0 n r th th' P Q. unfold counters. rewrite P, Q. reflexivity. Qed.
 
 (** Moving over a wait position changes no counter. *)
-Lemma counters_over_wait : forall n r th th',
+Lemma counters_over_wait : forall g0 n r th th',
   iswait n (pc th) = true -> pc th' = S (pc th) -> panicked th' = panicked th ->
-  counters n r th' = counters n r th.
+  counters g0 n r th' = counters g0 n r th.
 Proof.
-  intros n r th th' W P Q. unfold counters. rewrite P, Q. apply iswait_cases in W.
+  intros g0 n r th th' W P Q. unfold counters. rewrite P, Q. apply iswait_cases in W.
   f_equal.
   - f_equal. lia.
   - f_equal. destruct (Nat.ltb_spec (n + 1) (S (pc th))), (Nat.ltb_spec (n + 1) (pc th)); auto; lia.
@@ -95,12 +98,12 @@ Qed.
 
 (** Executing the action at a non-wait position updates the counters as the
     monitor does on the corresponding event. *)
-Lemma counters_exec : forall n sh r th th' a,
+Lemma counters_exec : forall g0 n sh r th th' a,
   nth_error (prog n sh) (pc th) = Some a -> iswait n (pc th) = false ->
   pc th' = S (pc th) -> panicked th' = panicked th ->
-  counters n r th' = mon_upd (counters n r th) (ev_of_act a).
+  counters g0 n r th' = mon_upd (counters g0 n r th) (ev_of_act a).
 Proof.
-  intros n sh r th th' a N W P Q. unfold counters. rewrite P, Q.
+  intros g0 n sh r th th' a N W P Q. unfold counters. rewrite P, Q.
   destruct (prog_at _ _ _ _ N) as [[L ->]|[[L ->]|[[L ->]|[[L ->]|[[L ->]|[[L ->]|[[L ->]|[[L ->]|[[L ->]|[L (k & o & ->)]]]]]]]]]];
     cbn [ev_of_act mon_upd m_gen m_clear m_start m_end m_pan];
     try (exfalso; unfold iswait in W; rewrite L in W;
@@ -121,16 +124,14 @@ Qed.
 
 Section Monitor.
 Variable c : config.
-Variable n : nat.
-Hypothesis size_fixed : forall r, ssize c r = n.
 Hypothesis T1 : 1 <= nthreads c.
 Hypothesis GD : fixed_code c.
 
 (** Simulation after a thread step that logs [e] (or nothing). *)
 Lemma sim_thread : forall st ms i th th' b' m e,
-  gp st = GRun -> Sim c n st ms -> nth_error (ths st) i = Some th -> nth_error ms i = Some m ->
-  counters n (round st) th' = match e with Some ev => mon_upd m ev | None => m end ->
-  Sim c n {| gp := GRun; round := round st; bar := b'; ths := upd i th' (ths st) |}
+  gp st = GRun -> Sim c st ms -> nth_error (ths st) i = Some th -> nth_error ms i = Some m ->
+  cnt c (round st) th' = match e with Some ev => mon_upd m ev | None => m end ->
+  Sim c {| gp := GRun; round := round st; bar := b'; ths := upd i th' (ths st) |}
       (match e with Some ev => upd i (mon_upd m ev) ms | None => ms end).
 Proof.
   intros st ms i th th' b' m e G [L S] N M C. rewrite G in S. split.
@@ -146,8 +147,8 @@ Qed.
 
 (** Every thread of the monitor state corresponds to a model thread. *)
 Lemma sim_lookup : forall st ms mj,
-  Inv c st -> gp st = GRun -> Sim c n st ms -> In mj ms ->
-  exists j thj, nth_error (ths st) j = Some thj /\ In thj (ths st) /\ mj = counters n (round st) thj.
+  Inv c st -> gp st = GRun -> Sim c st ms -> In mj ms ->
+  exists j thj, nth_error (ths st) j = Some thj /\ In thj (ths st) /\ mj = cnt c (round st) thj.
 Proof.
   intros st ms mj [L _] G [LM S] HI. rewrite G in S.
   destruct (In_nth_error_ex _ _ _ HI) as [j Hj].
@@ -161,25 +162,28 @@ Qed.
 Ltac simt e :=
   eapply (sim_thread _ _ _ _ _ _ _ e);
   [match goal with H : gp _ = GRun |- _ => exact H end
-  |match goal with H : Sim _ _ _ _ |- _ => exact H end
+  |match goal with H : Sim _ _ _ |- _ => exact H end
   |match goal with H : nth_error (ths _) _ = Some _ |- _ => exact H end
   |match goal with H : nth_error _ _ = Some _ |- _ => exact H end
   |].
 
 (** One step: the monitor accepts the event and the simulation carries on. *)
+Ltac foldn :=
+  match goal with n := _ |- _ => fold n; repeat match goal with H : _ |- _ => progress (fold n in H) end end.
+
 Lemma monitor_step : forall gev st ms l st',
-  Inv c st -> Sim c n st ms -> step c st l = Some st' ->
+  Inv c st -> Sim c st ms -> step c st l = Some st' ->
   match step_event_g gev c st l with
-  | Some (t, e) => exists m, nth_error ms t = Some m /\ mon_ok n ms m e = true /\ Sim c n st' (upd t (mon_upd m e) ms)
-  | None => Sim c n st' ms
+  | Some (t, e) => exists m, nth_error ms t = Some m /\ mon_ok (ssize c) ms m e = true /\ Sim c st' (upd t (mon_upd m e) ms)
+  | None => Sim c st' ms
   end.
 Proof.
-  intros gev st ms l st' I SM ST. pose proof ST as ST0. apply (step_cases _ _ _ _ (proj2 GD)) in ST.
+  intros gev st ms l st' I SM ST. pose proof ST as ST0. set (n := ssize c (round st)) in *. apply (step_cases _ _ _ _ (proj2 GD)) in ST.
   destruct ST as [G R|G R|k G F X|G F X|i th th' b' G N TC]; unfold step_event_g; try rewrite G.
   - (* start *)
     destruct SM as [L SS]. rewrite G in SS. split; auto. cbn [gp round ths].
     intros j th m Hj Hm. apply nth_error_In in Hj. apply in_map_iff in Hj. destruct Hj as (y & <- & _).
-    rewrite counters_fresh. apply SS. eapply nth_error_In; eauto.
+    unfold cnt. rewrite counters_fresh. apply SS. eapply nth_error_In; eauto.
   - destruct SM as [L SS]. split; auto. cbn. auto.
   - destruct SM as [L SS]. split; auto. cbn. auto.
   - (* join, all returned *)
@@ -190,39 +194,39 @@ Proof.
     destruct (nth_error (ths st) j) as [thj|] eqn:Nj; [|apply nth_error_None in Nj; lia].
     rewrite (SS j thj m Nj Hj).
     pose proof (find_idx_none _ _ _ X thj (nth_error_In _ _ Nj)) as RT.
-    pose proof (C thj (nth_error_In _ _ Nj)) as OK. rewrite size_fixed in OK.
+    pose proof (C thj (nth_error_In _ _ Nj)) as OK. fold n in OK.
     unfold returned in RT. unfold thread_ok in OK.
     destruct (md thj) eqn:M; try discriminate. destruct (blk thj); [contradiction|].
     destruct OK as (_ & _ & PL).
-    eapply counters_returned; eauto. unfold panicked. rewrite M. reflexivity.
+    unfold cnt. cbn [cum]. fold n. eapply counters_returned; eauto. unfold panicked. rewrite M. reflexivity.
   - (* thread step *)
     rewrite N. rewrite (tprog_info c (round st) i (proj2 GD i)).
     pose proof I as [LI K]. destruct (K G) as (A & B & C).
-    pose proof (C th (nth_error_In _ _ N)) as OK. rewrite size_fixed in OK.
+    pose proof (C th (nth_error_In _ _ N)) as OK. fold n in OK.
     pose proof SM as [LM SS]. rewrite G in SS.
     assert (i < length ms) as IL by (rewrite LM, <- LI; apply nth_error_Some; congruence).
     destruct (nth_error ms i) as [m|] eqn:Mi; [|apply nth_error_None in Mi; lia].
     pose proof (SS i th m N Mi) as EM.
-    rewrite size_fixed in *.
+    foldn.
     destruct TC as [a M BL NE|a M BL NE|M BL PL|M BL W PL NL|M BL W PL LT|M BL U PL FL|a M BL NA W PL FL|M BL R0|k M BL RK NL|k M BL RK LT];
-      rewrite M, ?BL; cbv iota; rewrite ?size_fixed in *.
+      rewrite M, ?BL; cbv iota; foldn; unfold cnt in *; foldn.
     + (* leave, running: ELeave or nothing; no counter changes *)
       unfold thread_ok in OK. rewrite M, BL in OK. destruct OK as (W & _).
-      assert (counters n (round st) (next_pc (set_blk th None)) = m) as CE.
-      { rewrite EM. apply counters_over_wait; auto. }
+      assert (cnt c (round st) (next_pc (set_blk th None)) = m) as CE.
+      { unfold cnt; try foldn; rewrite EM. apply counters_over_wait; auto. }
       destruct (nth_error (prog n (shp c)) (pc th)) as [[]|] eqn:NA;
         try (simt (@None evk); exact CE).
       exists m. split; [exact Mi|]. split; [reflexivity|].
       simt (Some (ELeave w)). exact CE.
     + (* leave, unwinding: EGLeave if logged *)
-      destruct gev; [|simt (@None evk); rewrite EM;
+      destruct gev; [|simt (@None evk); unfold cnt; try foldn; rewrite EM;
         apply counters_same; auto; try (unfold panicked; cbn; rewrite ?M; reflexivity)].
       exists m. split; [exact Mi|]. split; [reflexivity|].
-      simt (Some EGLeave). cbn [mon_upd]. rewrite EM.
+      simt (Some EGLeave). cbn [mon_upd]. unfold cnt; try foldn; rewrite EM.
       apply counters_same; auto; try (unfold panicked; cbn; rewrite ?M; reflexivity).
     + (* return *)
       apply prog_none in PL. rewrite PL.
-      simt (@None evk). rewrite EM.
+      simt (@None evk). unfold cnt; try foldn; rewrite EM.
       apply counters_same; auto; try (unfold panicked; cbn; rewrite ?M; reflexivity).
     + (* wait, releasing: EArrive *)
       destruct (nth_error (prog n (shp c)) (pc th)) as [a|] eqn:NA; [|apply prog_none in NA; lia].
@@ -230,21 +234,21 @@ Proof.
       destruct a; cbn in IW; try congruence. cbn [faultable andb].
       exists m. split; [exact Mi|]. split; [reflexivity|].
       simt (Some (EArrive w)). cbn [mon_upd].
-      rewrite EM. apply counters_over_wait; auto; try (unfold panicked; cbn; rewrite ?M; reflexivity).
+      unfold cnt; try foldn; rewrite EM. apply counters_over_wait; auto; try (unfold panicked; cbn; rewrite ?M; reflexivity).
     + (* wait, blocking: EArrive *)
       destruct (nth_error (prog n (shp c)) (pc th)) as [a|] eqn:NA; [|apply prog_none in NA; lia].
       destruct (prog_kind _ _ _ _ NA) as (_ & IW & F & _).
       destruct a; cbn in IW; try congruence. cbn [faultable andb].
       exists m. split; [exact Mi|]. split; [reflexivity|].
       simt (Some (EArrive w)). cbn [mon_upd].
-      rewrite EM. apply counters_same; auto.
+      unfold cnt; try foldn; rewrite EM. apply counters_same; auto.
     + (* panic: EPanic *)
       destruct (nth_error (prog n (shp c)) (pc th)) as [a|] eqn:NA; [|apply prog_none in NA; lia].
       destruct (prog_kind _ _ _ _ NA) as (_ & IW & F & _).
       rewrite F, U, FL. cbn [andb].
       exists m. split; [exact Mi|]. split; [reflexivity|].
       simt (Some EPanic).
-      rewrite (proj1 GD), EM. unfold counters, mon_upd, panicked; cbn. reflexivity.
+      rewrite (proj1 GD). unfold cnt; try foldn; rewrite EM. unfold counters, mon_upd, panicked; cbn. reflexivity.
     + (* non-wait action: its event; the check uses the invariant *)
       rewrite NA.
       destruct (prog_kind _ _ _ _ NA) as (_ & IW & F & _).
@@ -252,25 +256,25 @@ Proof.
       { rewrite F. destruct (userpos n (shp c) (pc th)); [rewrite FL|]; auto. }
       rewrite NF.
       exists m. split; auto.
-      assert (counters n (round st) (exec a (allocs c i (round st) (pc th)) th) = mon_upd m (ev_of_act a)) as CE.
-      { rewrite EM. eapply counters_exec; eauto.
+      assert (cnt c (round st) (exec a (allocs c i (round st) (pc th)) th) = mon_upd m (ev_of_act a)) as CE.
+      { unfold cnt; try foldn; rewrite EM. eapply counters_exec; eauto.
         - apply exec_pc.
         - unfold panicked. rewrite exec_md. reflexivity. }
       split; [|simt (Some (ev_of_act a)); exact CE].
       (* mon_ok *)
       unfold thread_ok in OK. rewrite M, BL in OK. destruct OK as (RW & GW).
       assert (forall mj, In mj ms -> m_pan mj = false ->
-                (2 <= wb n (pc th) -> n + 2 <= m_clear mj - round st + (n + 1) /\ m_clear mj = S (round st) /\ m_gen mj = S (round st) * n) /\
+                (2 <= wb n (pc th) -> n + 2 <= m_clear mj - round st + (n + 1) /\ m_clear mj = S (round st) /\ m_gen mj = cum (ssize c) (S (round st))) /\
                 (3 <= wb n (pc th) -> m_end mj = S (round st))) as LIVE.
       { intros mj HI PJ. destruct (sim_lookup _ _ _ I G SM HI) as (j & thj & Nj & Ij & ->).
-        pose proof (C thj Ij) as OJ. rewrite ?size_fixed in OJ.
-        cbn [m_pan counters] in PJ.
+        pose proof (C thj Ij) as OJ. fold n in OJ.
+        unfold cnt in PJ. cbn [m_pan counters] in PJ.
         destruct (live_thread_pos _ _ _ _ OJ PJ) as [X2 X3]. rewrite GW in X2, X3.
         split; intros G2.
-        - specialize (X2 G2). unfold counters; cbn [m_clear m_gen].
+        - specialize (X2 G2). unfold cnt, counters; fold n; cbn [m_clear m_gen cum]; fold n.
           replace (n + 1 <? pc thj) with true by (symmetry; apply Nat.ltb_lt; lia).
           rewrite Nat.min_r by lia. cbn [b2n]. repeat split; lia.
-        - specialize (X3 G2). unfold counters; cbn [m_end].
+        - specialize (X3 G2). unfold cnt, counters; fold n; cbn [m_end].
           replace (2 * n + 4 <? pc thj) with true by (symmetry; apply Nat.ltb_lt; lia).
           cbn [b2n]. lia. }
       destruct (prog_at _ _ _ _ NA) as [[L ->]|[[L ->]|[[L ->]|[[L ->]|[[L ->]|[[L ->]|[[L ->]|[[L ->]|[[L ->]|[L (k & o & ->)]]]]]]]]]];
@@ -281,7 +285,7 @@ Proof.
         assert (2 <= wb n (pc th)) as G2 by (apply wb_ge2; lia).
         destruct (L2 G2) as (_ & CL & GE).
         assert (m_start m = round st) as MS.
-        { rewrite EM. unfold counters; cbn [m_start].
+        { unfold cnt; try foldn; rewrite EM. unfold counters; cbn [m_start].
           replace (n + 3 <? pc th) with false by (symmetry; apply Nat.ltb_ge; lia). cbn [b2n]. lia. }
         rewrite MS. apply andb_true_iff. split; apply Nat.leb_le; lia.
       * (* snapshot *)
@@ -289,7 +293,7 @@ Proof.
         destruct (LIVE mj HI PJ) as [_ L3].
         assert (3 <= wb n (pc th)) as G3 by (apply wb_ge3; lia).
         assert (m_end m = S (round st)) as ME.
-        { rewrite EM. unfold counters; cbn [m_end].
+        { unfold cnt; try foldn; rewrite EM. unfold counters; cbn [m_end].
           replace (2 * n + 4 <? pc th) with true by (symmetry; apply Nat.ltb_lt; lia). cbn [b2n]. lia. }
         rewrite ME, (L3 G3). apply Nat.leb_le. lia.
       * (* drop *)
@@ -298,32 +302,32 @@ Proof.
           destruct (LIVE mj HI PJ) as [_ L3].
           assert (3 <= wb n (pc th)) as G3 by (apply wb_ge3; lia).
           assert (m_end m = S (round st)) as ME.
-          { rewrite EM. unfold counters; cbn [m_end].
+          { unfold cnt; try foldn; rewrite EM. unfold counters; cbn [m_end].
             replace (2 * n + 4 <? pc th) with true by (symmetry; apply Nat.ltb_lt; lia). cbn [b2n]. lia. }
           rewrite ME, (L3 G3). apply Nat.leb_le. lia. }
         destruct o; exact D.
     + (* guard: done, no event *)
       rewrite R0. cbn [Nat.eqb negb]. rewrite andb_false_r.
-      simt (@None evk). rewrite EM.
+      simt (@None evk). unfold cnt; try foldn; rewrite EM.
       apply counters_same; auto; try (unfold panicked; cbn; rewrite ?M; reflexivity).
     + (* guard wait, releasing: EGArrive if logged *)
       rewrite RK. cbn [Nat.eqb negb]. rewrite andb_true_r.
-      destruct gev; [|simt (@None evk); rewrite EM;
+      destruct gev; [|simt (@None evk); unfold cnt; try foldn; rewrite EM;
         apply counters_same; auto; try (unfold panicked; cbn; rewrite ?M; reflexivity)].
       exists m. split; [exact Mi|]. split; [reflexivity|].
-      simt (Some EGArrive). cbn [mon_upd]. rewrite EM.
+      simt (Some EGArrive). cbn [mon_upd]. unfold cnt; try foldn; rewrite EM.
       apply counters_same; auto; try (unfold panicked; cbn; rewrite ?M; reflexivity).
     + (* guard wait, blocking: EGArrive if logged *)
       rewrite RK. cbn [Nat.eqb negb]. rewrite andb_true_r.
-      destruct gev; [|simt (@None evk); rewrite EM;
+      destruct gev; [|simt (@None evk); unfold cnt; try foldn; rewrite EM;
         apply counters_same; auto; try (unfold panicked; cbn; rewrite ?M; reflexivity)].
       exists m. split; [exact Mi|]. split; [reflexivity|].
-      simt (Some EGArrive). cbn [mon_upd]. rewrite EM.
+      simt (Some EGArrive). cbn [mon_upd]. unfold cnt; try foldn; rewrite EM.
       apply counters_same; auto; try (unfold panicked; cbn; rewrite ?M; reflexivity).
 Qed.
 
 Lemma monitor_events : forall gev tr st ms,
-  Inv c st -> Sim c n st ms -> monitor n ms (events_g gev c st tr) = true.
+  Inv c st -> Sim c st ms -> monitor (ssize c) ms (events_g gev c st tr) = true.
 Proof.
   intros gev. induction tr as [|l t IH]; intros st ms I SM; [reflexivity|]. cbn [events_g].
   destruct (step c st l) as [st'|] eqn:ST; [|reflexivity].
@@ -334,7 +338,7 @@ Proof.
   - apply IH; auto.
 Qed.
 
-Lemma log_sb_model_g : forall gev tr, log_sb (nthreads c) n (events_g gev c (init c) tr) = true.
+Lemma log_sb_model_g : forall gev tr, log_sb (nthreads c) (ssize c) (events_g gev c (init c) tr) = true.
 Proof.
   intros gev tr. unfold log_sb. apply monitor_events.
   - apply inv_init.
@@ -342,11 +346,11 @@ Proof.
     intros m HI. apply repeat_spec in HI. subst. reflexivity.
 Qed.
 
-Theorem log_sb_model : forall tr, log_sb (nthreads c) n (events c (init c) tr) = true.
+Theorem log_sb_model : forall tr, log_sb (nthreads c) (ssize c) (events c (init c) tr) = true.
 Proof. exact (log_sb_model_g false). Qed.
 
 (** ... and of the full log, the guard's waits (hook H5) included. *)
-Theorem log_sb_model_full : forall tr, log_sb (nthreads c) n (events_full c (init c) tr) = true.
+Theorem log_sb_model_full : forall tr, log_sb (nthreads c) (ssize c) (events_full c (init c) tr) = true.
 Proof. exact (log_sb_model_g true). Qed.
 
 End Monitor.
